@@ -226,7 +226,9 @@ func (p *recPlugin) OnSessionOpen(ssn *framework.Session) {
 	ssn.AddReclaimableFn(recorderName, vote)
 	ssn.AddJobPipelinedFn(recorderName, func(obj interface{}) int {
 		j := obj.(*api.JobInfo)
-		w.Trace = append(w.Trace, TraceEv{Kind: 13, Task: jobNum(j.UID), Action: w.curAct})
+		// Status / Node carry what the job's own counters say at this moment: occupied and minimum
+		w.Trace = append(w.Trace, TraceEv{Kind: 13, Task: jobNum(j.UID), Action: w.curAct,
+			Status: int64(j.WaitingTaskNum() + j.ReadyTaskNum() + j.PendingBestEffortTaskNum()), Node: int64(j.MinAvailable)})
 		return 0 // abstain
 	})
 }
